@@ -262,7 +262,8 @@ impl C02 {
                     _ => (fk.secret, fk.public),
                 },
             };
-            let msg_len = b.payload_len(false).min(2000);
+            // mostly small, sometimes beyond 64 KiB (chunked MAC / length handling under faults)
+            let msg_len = if b.rng.chance(1, 40) { 65_500 + b.rng.usize_below(200) } else { b.payload_len(false).min(2000) };
             let undec = self.probe && b.rng.chance(1, 3);
             let claims = self.claims(&mut b, msg_len, undec);
             let footer = match b.rng.below(4) {
